@@ -471,6 +471,21 @@ def gen_recipe(r, cfg=None, profile="mixed"):
             ids.append(len(vals) - 1)
         return ids
 
+    def twin(L, shape):
+        """siamese branch: a second operator on the same input sharing the weight and bias constants, usually with its own
+        output quantisation (the process-wide compression cache must not confuse the two)"""
+        if r.random() >= 0.08 or len(layers) >= cfg["depth"]:
+            return
+        L2 = dict(L)
+        sid = len(layers)
+        L["shared_w"] = L2["shared_w"] = sid
+        L["shared_b"] = L2["shared_b"] = sid
+        q2 = _rand_q(r, dtype) if r.random() < 0.75 else tuple(L["q"])
+        L2["q"] = list(q2)
+        L2["act"] = r.choice(["NONE", L["act"]])
+        emit(L2, shape, q2)
+        L2["seed"] = L["seed"]
+
     def pick4d():
         cands = [i for i, v in enumerate(vals) if len(v["shape"]) == 4 and v["dtype"] == dtype and v["shape"][0] == 1]
         if not cands:
@@ -508,6 +523,7 @@ def gen_recipe(r, cfg=None, profile="mixed"):
                      wscale=f32(r.choice([0.002, 0.01, 0.03])), bias=r.random() < 0.9)
             L["in"] = [xi]
             emit(L, [1, OH, OW, oc], oq)
+            twin(L, [1, OH, OW, oc])
         elif fam == "dw":
             kh, kw = r.choice([(3, 3), (3, 3), (1, 1), (5, 5), (2, 2), (3, 1), (1, 5)])
             sh, sw = r.choice([(1, 1), (1, 1), (2, 2), (1, 2)])
@@ -521,6 +537,7 @@ def gen_recipe(r, cfg=None, profile="mixed"):
                      wscale=f32(r.choice([0.002, 0.01, 0.03])), bias=r.random() < 0.9)
             L["in"] = [xi]
             emit(L, [1, OH, OW, C], oq)
+            twin(L, [1, OH, OW, C])
         elif fam == "pool":
             op = r.choice(["MAX_POOL_2D", "AVERAGE_POOL_2D"])
             kh, kw = r.choice([(2, 2), (3, 3), (2, 2), (1, 1), (3, 2), (4, 4), (8, 8)])
